@@ -467,3 +467,89 @@ def gen_program(rng, u, target, star_names, extra_targets=(), g=None):
         body.append("_r = ()")
     sep = rng.choice(["\n", "\n\n", "\n# body\n"])
     return "\n".join(lines) + sep + "\n".join(body) + "\n", reads
+
+
+# ----------------------------------------------------------------------------------------------
+# facade / compat modules: `from M import *` binds names although the export list is empty
+# ----------------------------------------------------------------------------------------------
+
+def gen_facade_universe(rng, tag, kind):
+    u = U(tag)
+    g = ModGen(rng, u, kind)
+    if rng.random() < 0.3:
+        g.emit(rng.choice(['"""compat: one place to get the helpers"""', "# facade"]))
+    for _ in range(rng.randint(1, 4)):
+        r = rng.random()
+        if r < 0.55:
+            g.st_foreign()
+        elif r < 0.70:
+            n = rng.choice(PRIVATE)
+            g.emit(rng.choice(["def %s(*a):\n    return 0", "%s = [0]", "class %s:\n    pass"]) % n)
+            g.bind(n, "def")
+        elif r < 0.80:
+            g.emit("import json as _json")
+            g.bind("_json", "import_foreign")
+        elif r < 0.90:
+            g.emit(rng.choice(["k9: int", "if False:\n    zz = 1", "pass", "'doc'"]))
+        else:
+            g.st_foreign()
+    # make sure a public name arrives through a foreign import
+    if not any(not n.startswith("_") for n in g.bound):
+        g.emit("from %s import fz" % u.F)
+        g.bind("fz", "import_foreign")
+    src = "\n".join(g.lines) + "\n"
+    files = {
+        u.P + "/__init__.py": "",
+        u.P + "/sub.py": SUB_SRC,
+        u.P + "/a.py": "aa = 1\n",
+        u.P + "/sp/__init__.py": "spx = ['spx']\n",
+        u.P + "/sp/leaf.py": LEAF_SRC,
+        u.F + ".py": FOREIGN_SRC,
+        u.M + ".py": "pm = 1\n",
+        u.MX + ".py": MX_SRC,
+    }
+    files[u.target_path(kind)] = src
+    return u, g, files
+
+
+# ----------------------------------------------------------------------------------------------
+# environment cases: proj/tool.py star-imports its sibling proj/<S>; lib/<S> is another module of that name
+# ----------------------------------------------------------------------------------------------
+
+def gen_env_case(rng, tag):
+    S = rng.choice(["settings", "config", "helpers", "common"]) + "_" + tag
+    pkg = rng.random() < 0.25
+
+    def modsrc(where, names, extra):
+        lines = []
+        for n in names:
+            lines.append(rng.choice(["%s = %r", "def %s():\n    return %r", "class %s:\n    tag = %r"]) % (n, where + ":" + n)
+                         if rng.random() < 0.5 else "%s = %r" % (n, where + ":" + n))
+        lines += extra
+        rng.shuffle(lines)
+        return "\n".join(lines) + "\n"
+    common = rng.sample(["TIMEOUT", "common", "Shared"], rng.randint(0, 2))
+    proj_only = rng.sample(["DEBUG", "proj_fn", "ProjK", "level"], rng.randint(1, 3))
+    lib_only = rng.sample(["LIB_ONLY", "lib_fn", "LibK"], rng.randint(1, 2))
+    pextra = rng.choice([[], ["_hidden = 1"], ["import os"], ["__all__ = %r" % (sorted(proj_only + common),)]])
+    lextra = rng.choice([[], ["_lh = 1"], ["__all__ = %r" % (sorted(lib_only + common),)]])
+    psrc = modsrc("proj", proj_only + common, pextra)
+    lsrc = modsrc("lib", lib_only + common, lextra)
+    projfiles = {(S + "/__init__.py" if pkg else S + ".py"): psrc}
+    libfiles = {(S + "/__init__.py" if (pkg and rng.random() < 0.7) else S + ".py"): lsrc, "otherlib_" + tag + ".py": "ol = 1\n"}
+    reads = rng.sample(proj_only + common, rng.randint(1, len(proj_only + common)))
+    lines = []
+    if rng.random() < 0.3:
+        lines.append("import os")
+    lines.append("from %s import *" % S)
+    if rng.random() < 0.2:
+        lines.append("from otherlib_%s import ol" % tag)   # only importable when lib is on the path
+    body = "_r = (%s,)\nprint([getattr(x, 'tag', None) or (x() if callable(x) else x) for x in _r])\n" % ", ".join(reads)
+    program = "\n".join(lines) + "\n\n" + body
+    via = "cli" if rng.random() < 0.4 else "lib"
+    path_mode = rng.choice(["absent_nolib", "absent", "first", "after", "after", "after"])
+    if "otherlib_" in program and path_mode == "absent_nolib":
+        path_mode = "after"
+    preimport = (via == "lib" and path_mode == "first" and rng.random() < 0.5)
+    return dict(kind="env", env=dict(path_mode=path_mode, preimport=preimport, via=via), modname=S,
+                projfiles=projfiles, libfiles=libfiles, program=program, reads=reads, files={}, targets=[], cli=False)
